@@ -1143,7 +1143,9 @@ static int process_table(fb_parser_t *P, fb_compound_type_t *ct)
                         member->type.type = vt_invalid;
                         continue;
                     }
-                } else {
+                }
+                /* A symbolic value may name a member of another enum: range and membership are checked like numbers. */
+                {
                     if (fb_coerce_scalar_type(P, sym, ((fb_compound_type_t *)type_sym)->type.st, &member->value)) {
                         member->type.type = vt_invalid;
                         continue;
